@@ -35,6 +35,13 @@ CLAIMS = {
  "C19": ("Theorems for all call histories, arguments and any Rust-API behaviour: result_free_exact (result_free releases exactly the blocks the result owns), dealloc_wrong_layout_faults, result_free_twice_faults, conformant_free_never_faults, heap_balanced and heap_accounted (by invariant induction over histories: with every result freed once and every circuit freed once the heap returns to its initial multiset), gate_table_documented / cond_table_documented (the dispatch tables re-extracted from ffi.rs on every run equal the documented tables, by decide), sigs_agree / layouts_agree / result_codes_agree (Rust extern signatures and #[repr(C)] layouts vs the Python cdef prototypes), ffi_mirrors / ffi_error_iff (RESULT_ERROR iff the Rust call errs or no such call exists; same payload otherwise), ffi_param_live. Correspondence: the real extern \"C\" functions under a logging global allocator on generated histories (4k quick / 40k thorough), allocations per call compared with the model, answers compared with a twin Rust Circuit, aborts confirmed in isolated child processes.",
          "PARTIAL: what the allocator does and that q1tsim proper neither leaks nor frees foreign blocks is observed, not modelled; panics across the C ABI abort the process (nine known-finding classes); abort predictors are conservative.",
          "DESIGN.md §5 C19", TECH),
+
+ "C13": ("Theorems for all circuits of any register size and length: grid_rectangular / shape_invariant (if the export does not fail, the grid has one row per quantum and classical wire and all rows have equal length; an invariant of the emitter state machine under any sequence of emitters), connectors_in_grid_on_partner_partial / connector_invariant (every vertical connector of every cell ends inside the grid on its partner symbol, for all circuits whose operations satisfy the decidable predicate opOk, which excludes exactly the listed defect classes), undrawable_is_error / undrawable_error_value (peeks are refused with the specific error and the first undrawable operation decides), emitter_templates_as_modelled (the cell templates re-extracted from src/export/latex.rs on every run are the ones the model prints); kernel-checked negative witnesses for the defect classes (control between targets panics, reset_all on 0 qubits panics, conditional composite overwrites its own column, nested loop panics, barrier column reused, controlled Kron unconnected). Correspondence: Circuit::latex() and the public LatexExportState methods vs the model on every library gate at every placement (<=4 qubits) and 4k/40k random circuits over all op kinds, compared cell by cell; the implementation's text is read back by an independent qcircuit reader and WellDrawn (once-per-op, wire order, connector ends, clear spans) evaluated on it.",
+         "PARTIAL: the connector theorem holds under opOk (ten known findings are the excluded classes); 'every operation exactly once', wire order and clear connector spans are evaluated on the implementation's output of every generated case (B), not proved in general; that the printed text reads back as the model's grid is checked at run time.",
+         "DESIGN.md §5 C13", TECH),
+ "C16": ("Theorems for all parameter values and all nestings, in any commutative *-ring with an abstract trigonometric context (instantiated at the complex numbers by complex_is_model): square_exact_prim (every primitive with a square except U2: matrix(square g) = matrix(g)^2 exactly), u2_square_phase (U2: equal up to the stated unit scalar only), square_term (exactness is preserved by C, Kron and Loop; phase-equality by Kron and Loop but by C only when exact), square_spec_partial (for every term with no U2 below a C: the square denotes the gate applied twice up to one global phase, and exactly below every C), cu2_square_wrong_of_phase / cu2_square_wrong (the full statement is false for CU2: kernel-checked witness), square_reference_refused (any reference-valued parameter is refused with ReferenceArithmetic, never frozen), square_loop_keeps_body, square_unimplemented (U3, composites: OpNotImplemented). Correspondence: every Square implementor and 41 nestings at generated parameters, with reference cells overwritten between square() and matrix().",
+         "PARTIAL: U2 below a controlled wrapper is a genuine defect (known finding C16-cu2-square); IEEE rounding/libm outside the model; usize overflow of 2*nr_iterations not modelled.",
+         "DESIGN.md §5 C16", TECH),
 }
 NOT_YET = "check under construction in this round (not yet claimed)"
 
